@@ -50,7 +50,11 @@ def _judge(prop, kind, case, native):
             return 'the loop panics: ' + r['panic']
         if 'ok' not in r:
             return None
-        f = loopcheck.judge_native_log(native, case['layout'], r['ok'])
+        info = {}
+        f = loopcheck.judge_native_log(native, case['layout'], r['ok'], info)
+        if prop == 'C19':
+            c19 = info['mon'].c19
+            return None if c19 is None else '%s %r' % c19
         if f is not None and f[0] in (prop, 'DIVERGED'):
             return '%s %r' % (f[1], f[2])
         return None
